@@ -109,6 +109,50 @@ def gl(f, e, dom=None):
     return out
 
 
+def round7(R, P, fns):
+    """LOAD/doubling: s_expand_table asks for twice the SLOT COUNT (the member `size`), not twice anything smaller: a 2-slot table
+    whose new size is computed from max_load stays at 2 slots, fills up, and the next put probes a table without an empty slot.
+    HASH-ALIGN/cursor-eq: aws_byte_cursor_eq IS aws_array_eq over both (pointer, length) pairs - any other way to `equal`
+    (same address, say) makes views of different lengths equal, while their hashes differ."""
+    f = fns.get("s_expand_table")
+    if R.require(f is not None, "s_expand_table not found"):
+        up = f.calls("s_update_template_size")
+        okd, what = False, "the new size handed to s_update_template_size was not traced"
+        if up:
+            a1 = RU.uncast(f, RU.arg(f, up[0].node, 1))
+            src = None
+            if a1 is not None and a1["k"] == "var":
+                # the out-parameter of a checked multiplication / a local computed from the old size
+                for c_ in f.calls({"aws_mul_size_checked", "aws_mul_u64_checked", "aws_add_size_checked"}):
+                    if argstr(f, c_.node, 2).lstrip("&") == a1["n"]:
+                        src = (c_.node.get("callee"), RU.uncast(f, RU.arg(f, c_.node, 0)), RU.uncast(f, RU.arg(f, c_.node, 1)))
+                if src is None:
+                    o_ = RU.origin(f, a1)
+                    o_ = RU.uncast(f, o_) if o_ is not None else None
+                    if o_ is not None and o_["k"] == "bin" and o_["op"] in ("*", "<<", "+"):
+                        src = (o_["op"], RU.uncast(f, o_["a"][0]), RU.uncast(f, o_["a"][1]))
+            if src is not None:
+                opn, x, y = src
+                def is_size(n_):
+                    n_ = RU.uncast(f, RU.origin(f, n_) or n_) if n_ is not None else None
+                    return n_ is not None and n_["k"] == "member" and n_["f"] == "size" and n_.get("rec") == ST
+                k = f.is_const(y) if is_size(x) else (f.is_const(x) if is_size(y) else None)
+                doubled = (("mul" in str(opn) or opn == "*") and k == 2) or (opn == "<<" and k == 1 and is_size(x)) or (("add" in str(opn) or opn == "+") and is_size(x) and is_size(y))
+                okd = bool(doubled)
+                what = "%s(%s, %s)" % (opn, f.show(x), f.show(y))
+        R.check(okd, "LOAD", "expand:twice-the-slot-count", "%s()" % f.name, "the new size is 2 * size",
+                "s_expand_table asks for %s: not twice the slot count - a small table does not grow, its load limit is exceeded and the next put finds no empty slot" % what)
+    g = P.fn("aws_byte_cursor_eq")
+    if R.require(g is not None, "aws_byte_cursor_eq not found"):
+        okc = bool(g.returns())
+        for r_ in g.returns():
+            v_ = RU.origin(g, r_.node["a"][0]) if r_.node.get("a") else None
+            v_ = RU.uncast(g, v_) if v_ is not None else None
+            okc = okc and v_ is not None and v_["k"] == "call" and v_.get("callee") == "aws_array_eq" and [argstr(g, v_, i, addr=False) for i in range(4)] == ["a->ptr", "a->len", "b->ptr", "b->len"]
+        R.check(okc, "HASH-ALIGN", "cursor-eq-is-array-eq", "aws_byte_cursor_eq()", "the verdict is aws_array_eq(a->ptr, a->len, b->ptr, b->len) and nothing else",
+                "aws_byte_cursor_eq does not return exactly aws_array_eq over both (pointer, length) pairs: cursors that aws_hash_byte_cursor_ptr hashes differently (a view and its prefix) can compare equal")
+
+
 def analyse(ctx, replace=None, only=None):
     R = ctx.R
     P = ctx.program([HT, "source/byte_buf.c"], "ship", replace=replace)
@@ -131,6 +175,7 @@ def analyse(ctx, replace=None, only=None):
     slots_zeroed(R, P, fns)
     hash_align(R, P)
     content_pairs(R, P)
+    round7(R, P, fns)
 
 
 def probing(R, P, fns):
@@ -754,6 +799,8 @@ def ignore_case_pair(R, P):
 
 
 MUTANTS = [
+    {"name": "expand-doubles-the-load-limit", "file": HT, "expect": "LOAD", "old": "    if (aws_mul_size_checked(template.size, 2, &new_size)) {", "new": "    if (aws_mul_size_checked(template.max_load, 2, &new_size)) {"},
+    {"name": "cursor-eq-same-address-shortcut", "file": "source/byte_buf.c", "expect": "HASH-ALIGN", "old": "    bool rv = aws_array_eq(a->ptr, a->len, b->ptr, b->len);", "new": "    bool rv = (a->ptr == b->ptr) || aws_array_eq(a->ptr, a->len, b->ptr, b->len);"},
     {"name": "exhausted-iterator-parked-at-size", "file": HT, "expect": "ITER", "old": "    iter->slot = iter->limit;\n    iter->status = AWS_HASH_ITER_STATUS_DONE;", "new": "    iter->slot = state->size;\n    iter->status = AWS_HASH_ITER_STATUS_DONE;"},
     {"name": "u64-hash-of-the-key-address", "file": HT, "expect": "HASH-ALIGN", "old": "    return *(uint64_t *)item;", "new": "    uint64_t value;\n    memcpy(&value, &item, sizeof(value));\n    return value;"},
     {"name": "slots-zeroed-at-element-size", "file": HT, "expect": "COUNT", "old": "    struct hash_table_state *state = aws_mem_calloc(template->alloc, 1, required_bytes);", "new": "    struct hash_table_state *state = aws_mem_acquire(template->alloc, required_bytes);\n    if (state) { memset(state->slots, 0, template->size * sizeof(struct aws_hash_element)); }"},
